@@ -431,7 +431,11 @@ def evaluate(run, plugin, cases, driver_ok=True, oracle_only=False):
             viol = plugin.oracle(c) if hasattr(plugin, "oracle") else []
             res["n_oracle"] += 1
         except Exception as e:  # noqa: BLE001
-            viol = [("oracle-crash/" + type(e).__name__, f"oracle raised {type(e).__name__}: {e}")]
+            # An exception ESCAPING plugin.oracle is a fault of the harness (an oracle reports what the code under test raises under a key
+            # of its own): it means the oracle could not judge this case — a broken tie, not a failing input.
+            viol = []
+            if sum(1 for p_ in run.problems if p_["kind"] == "oracle-error") < 5:
+                run.problem("oracle-error", c.get("kind", "?"), f"oracle raised {type(e).__name__}: {str(e)[:300]} on case {util.jdump(strip_private(c))[:400]}")
             if os.environ.get("VERIF_DEBUG"):
                 traceback.print_exc()
         for key, msg in viol or []:
